@@ -77,6 +77,9 @@ def gen_diagram(rng, max_n, style=None, allow_inf=True, allow_diag=True, scale=N
     if allow_inf and rng.random() < 0.15:
         for _ in range(rng.randint(1, 2)):
             b = (rng.choice(pts)[0] if pts else 0.0)
+            if pts and rng.random() < 0.3:      # an essential class born after every finite class has died
+                b = max(q[1] for q in pts if math.isfinite(q[1])) + rng.choice((0.5, 1.0, 3.0)) * scale \
+                    if any(math.isfinite(q[1]) for q in pts) else b
             pts.insert(rng.randrange(len(pts) + 1), [b, INF])
     rng.shuffle(pts)
     return pts, style, scale, shift
@@ -166,12 +169,14 @@ def representation(rng, pts):
     opts = ["f64", "list"]
     if pts and all(math.isfinite(x) and float(x).is_integer() and abs(x) < 2 ** 31 for p in pts for x in p):
         opts += ["i64", "ilist"]
+        if all(0 <= x <= 255 for p in pts for x in p):
+            opts += ["u8", "u8"]          # e.g. diagrams of 8-bit images
     return rng.choice(opts)
 
 
 def materialize(pts, rep="f64"):
     """Build the Python object handed to persim."""
-    if rep in ("i64", "ilist"):
+    if rep in ("i64", "ilist", "u8"):
         from sim.sched import InvalidCase
         if not pts or not all(math.isfinite(x) and float(x).is_integer() for p in pts for x in p):
             raise InvalidCase("integer representation of a non-integral diagram")
@@ -179,6 +184,11 @@ def materialize(pts, rep="f64"):
         return np.array(pts, dtype=np.float64).reshape(-1, 2) if pts else np.zeros((0, 2))
     if rep == "i64":
         return np.array(pts, dtype=np.int64).reshape(-1, 2)
+    if rep == "u8":
+        from sim.sched import InvalidCase
+        if not all(0 <= x <= 255 for p in pts for x in p):
+            raise InvalidCase("uint8 representation needs values in 0..255")
+        return np.array(pts, dtype=np.uint8).reshape(-1, 2)
     if rep == "list":
         return [[float(x) for x in p] for p in pts]
     if rep == "ilist":
@@ -195,3 +205,21 @@ def check_diagram_json(pts):
             raise InvalidCase("diagram rows must be [b, d]")
         if math.isnan(p[0]) or math.isnan(p[1]) or not math.isfinite(p[0]) or p[1] < p[0]:
             raise InvalidCase("need finite birth <= death")
+
+
+def gen_u8_pair(rng, max_n):
+    """Two diagrams with integer coordinates in 0..255 (persistence of 8-bit data), meant to be handed over as
+    unsigned 8-bit arrays on both sides."""
+    def one():
+        n = rng.randint(1, max(1, min(max_n, 8)))
+        pts = []
+        for _ in range(n):
+            b = rng.randint(0, 250)
+            pts.append([float(b), float(rng.randint(b, 255))])
+        return pts
+    A = one()
+    B = one() if rng.random() < 0.5 else [[float(min(255, max(0, p[0] + rng.randint(-12, 12)))), 0.0] for p in A]
+    for q, p in zip(B, A):
+        if q[1] == 0.0:
+            q[1] = float(min(255, max(q[0], p[1] + rng.randint(-12, 12))))
+    return A, B
